@@ -21,7 +21,7 @@ ASSUMPTIONS = ["a bracketed list whose only item is empty is textually the empty
                "nullable list items only with brackets, delimiter and allow_final_delimiter=False (otherwise the "
                "text is ambiguous)"]
 TIERS = {
-    "quick": {"shards": 4, "cases": 500, "timeout": 600},
+    "quick": {"shards": 4, "cases": 500, "timeout": 300},
     "thorough": {"shards": 16, "cases": 5000, "timeout": 3000},
 }
 FLOORS = {"quick": {"distinct_nontrivial": 400, "parses_compared": 5000, "negative_cases_rejected": 300,
